@@ -58,4 +58,8 @@ example : let c := ([WAct.heartbeat 0 1 2, .choose (some 0), .record 0 0 .ready]
     Repaired in /repo by a `fix:` commit; `scheduler_consistent` above is about the repaired step. -/
 theorem pinned_panic_witness : witness.2 = .panic ∧ witness.1.poisoned = true := sched_panic_witness
 
+/-- the capacity bound of the model is the `cores_plus_slack` formula of sccache-dist/main.rs **as it is now** (regenerated) -/
+theorem capacity_formula_is_source_formula : (∀ c, capOf c = GenC.capOf c) ∧ GenC.maxPerCoreLoad = 2 :=
+  SchedM.Sched.capacity_matches_source
+
 end C18
